@@ -16,7 +16,7 @@ pub static DEF: PropDef = PropDef {
 padding to reach a multiple of 16; block 1 XOR MD5(type, secret, rv), block i XOR MD5(secret, ciphertext block i-1)) using the harness's own MD5; |value| = 16*ceil((2+|payload|+|lp|)/16); the attribute type is \
 unchanged, the wire form carries the H bit and the clear type; the value does not change when only the unused tail of the alignment padding changes, nor across repeated calls. \
 (backward) G-hidden tapes (random values and crafted plaintexts encrypted with the reference key schedule): reveal(h,s,rv) must equal the reference reveal (equal Ok value, or both Err). \
-(related secrets) the same AVP, random vector and paddings hidden and revealed under two related secrets (prefix, extension, two octets swapped incl. 8 apart, a neighbouring pair changed by (+1,-31), same length different content, empty) back to back on one thread, every result against the reference. Non-trivial = at least 2 cipher blocks (chaining exercised); distinct by hash of the inputs.",
+(related secrets) the same AVP, random vector and paddings hidden and revealed under two related secrets (prefix, extension, two octets swapped incl. 8 apart, a neighbouring pair changed by (+1,-31), same length different content, empty) back to back on one thread, every result against the reference; in 4 % of these cases four threads hide and reveal different AVPs under different secrets concurrently instead. Non-trivial = at least 2 cipher blocks (chaining exercised); distinct by hash of the inputs.",
     assumptions: &[
         "the harness's own MD5 (RFC 1321, self-tested against the RFC vectors and against the md5 crate at padding-boundary lengths) and reference cipher are the trusted base",
         "the original-length subfield holds the total original AVP length (6 + payload), the crate's convention (DESIGN.md section 0)",
@@ -175,9 +175,56 @@ fn check_related(t: &mut Tape, cx: &mut Cx) -> Res {
     Ok(())
 }
 
+/// "the output depends on nothing but these inputs": four threads hide and reveal different AVPs under different secrets
+/// at the same time, each result against the reference
+fn check_concurrent(t: &mut Tape, cx: &mut Cx) -> Res {
+    cx.eval();
+    let cases: Vec<HideCase> = (0..4).map(|_| gen_hide(t)).collect();
+    let jobs: Vec<(rl2tp::avp::AVP, Vec<u8>, [u8; 4], Vec<u8>, [u8; 16], Vec<u8>, u16)> = cases
+        .iter()
+        .map(|h| (to_crate(&h.avp), h.secret.clone(), h.rv, h.lp.clone(), h.ap, hide(h.avp.attr, &h.payload, &h.secret, &h.rv, &h.lp, &h.ap), h.avp.attr))
+        .collect();
+    cx.stage(STAGE_UNATTRIBUTED);
+    let handles: Vec<_> = jobs
+        .into_iter()
+        .map(|(a, s, rv, lp, ap, want, attr)| {
+            std::thread::spawn(move || {
+                for round in 0..12 {
+                    let h = a.clone().hide(&s, &rv.into(), &lp, &ap);
+                    match &h {
+                        AVP::Hidden(x) if x.value == want && x.attribute_type == attr => {}
+                        _ => return Some(format!("hide() on a busy process returned a value different from the reference (round {})", round)),
+                    }
+                    match h.reveal(&s, &rv.into()) {
+                        Ok(b) if b == a => {}
+                        other => return Some(format!("reveal() on a busy process returned {:?} (round {})", other.map(|x| from_crate(&x)), round)),
+                    }
+                }
+                None
+            })
+        })
+        .collect();
+    let mut bad = None;
+    for h in handles {
+        match h.join() {
+            Ok(None) => {}
+            Ok(Some(why)) => bad = Some(why),
+            Err(_) => bad = Some("a thread running hide / reveal panicked".to_string()),
+        }
+    }
+    cx.stage(STAGE_SETUP);
+    if let Some(why) = bad {
+        return fail(why, json!({"avps": cases.iter().map(|h| format!("{:?}", crate::props::c07_abbrev(&h.avp))).collect::<Vec<_>>(), "secrets": cases.iter().map(|h| hex_short(&h.secret)).collect::<Vec<_>>()}));
+    }
+    cx.class("four threads hiding and revealing under different secrets at once");
+    cx.nontrivial(&(cases.iter().map(|h| h.payload.clone()).collect::<Vec<_>>(), 21u8));
+    Ok(())
+}
+
 fn run_tape(part: &str, tape: &[u8], cx: &mut Cx) -> Res {
     let mut t = Tape::new(tape);
     match part {
+        "related-secrets" if t.chance(4) => check_concurrent(&mut t, cx),
         "related-secrets" => check_related(&mut t, cx),
         "forward" => {
             crate::props::history::prior_ops(&mut t, cx, true);
